@@ -7,6 +7,8 @@ import (
 	"testing"
 	"time"
 
+	"github.com/milvus-io/milvus/pkg/util/funcutil"
+
 	"github.com/zilliztech/milvus-cdc/core/log"
 	"github.com/zilliztech/milvus-cdc/core/pb"
 	"github.com/zilliztech/milvus-cdc/core/verifkit/ev"
@@ -125,6 +127,9 @@ func plWrap(sc *plScenario, chk plCheck) *sched.Scenario {
 		}
 		if strings.Contains(chk.props, "D") {
 			a.checkDuplicates()
+		}
+		if strings.Contains(chk.props, "M") {
+			a.checkMapping()
 		}
 		out := sched.Outcome{Summary: plSummary(r), Violations: a.viol}
 		if os.Getenv("VERIF_REPLAY") != "" {
@@ -510,6 +515,91 @@ func TestVerifC02Routing(t *testing.T) {
 	}
 	res.Rule = "sched engine over the real channel manager: placements of source/downstream shards onto physical channels {renamed channels, downstream names sorting differently, two collections placed crosswise (forward path between handlers), downstream partition id learned through the create-partition event, downstream collection created through the create-collection event; thorough: 2:1 and 1:2 channel counts} plus every single-letter script; all start orders and schedules within the deviation bound; oracle per emitted message: downstream collection id, downstream partition id of the same-named partition, downstream vchannel paired by sorted order, arrival on the pchannel hosting that vchannel, every pack/message position naming that channel, source message id kept; non-trivial = executions with interleaving inside the handler"
 	plExplore(t, res, "C02", bound, scs, plCheck{props: "12"}, 150*time.Second)
+}
+
+// ------------------------------------------------------------------------------------------------
+// C16 (manager part): the channel assignment the real channel manager builds while collections are started
+// concurrently, observed at every scheduling point through the public methods of util.ChannelMapping
+
+func (a *plAnalysis) checkMapping() {
+	r := a.r
+	larger, smaller := r.sc.SrcN, r.sc.TgtN
+	if larger < smaller {
+		larger, smaller = smaller, larger
+	}
+	quota := 1
+	if smaller > 0 {
+		quota = (larger + smaller - 1) / smaller
+	}
+	first := map[string]string{}
+	for i, snap := range r.mapSnaps {
+		load := map[string]int{}
+		for k, v := range snap {
+			if strings.Contains(v, "|") {
+				a.v("C16/manager/two-images", "at scheduling point %d channel %s is assigned to %s at the same time", i, k, v)
+				continue
+			}
+			if old, ok := first[k]; ok && old != v {
+				a.v("C16/manager/assignment-changed", "channel %s was assigned to %s and at scheduling point %d it is assigned to %s", k, old, i, v)
+			} else if !ok {
+				first[k] = v
+			}
+			load[v]++
+		}
+		for k := range first {
+			if _, still := snap[k]; !still {
+				a.v("C16/manager/assignment-lost", "the assignment of channel %s (to %s) is gone at scheduling point %d", k, first[k], i)
+			}
+		}
+		for v, n := range load {
+			if n > quota {
+				a.v("C16/manager/overload", "at scheduling point %d channel %s serves %d channels of the other side, quota ceil(%d/%d) = %d", i, v, n, larger, smaller, quota)
+			}
+		}
+	}
+	// total: every source channel whose stream was subscribed has an assignment in the end
+	if len(r.mapSnaps) > 0 {
+		last := r.mapSnaps[len(r.mapSnaps)-1]
+		used := map[string]bool{}
+		for k, v := range last {
+			used[k], used[v] = true, true
+		}
+		for _, reg := range r.mq.Registers {
+			if pc := funcutil.ToPhysicalChannel(reg.VChannel); !used[pc] {
+				a.v("C16/manager/unassigned", "source channel %s is read (stream %s) but has no downstream channel assigned: %v", pc, reg.VChannel, last)
+			}
+		}
+	}
+}
+
+func TestVerifC16Manager(t *testing.T) {
+	res := ev.New("C16", "manager")
+	defer res.Write()
+	bound := 2
+	if ev.Thorough() {
+		bound = 3
+	}
+	var scs []*plScenario
+	for _, sc := range plPlacementScenarios(true) {
+		if strings.Contains(sc.Name, "lazy-partition") || strings.Contains(sc.Name, "created-by-event") {
+			continue
+		}
+		sc.WatchMapping = true
+		scs = append(scs, sc)
+	}
+	// three source channels onto two downstream channels and the reverse, collections started concurrently
+	{
+		c1 := mkColl(101, "c1", []string{"src-dml_0", "src-dml_1"}, []string{"tgt-dml_0", "tgt-dml_1"})
+		c2 := mkColl(102, "c2", []string{"src-dml_2"}, []string{"tgt-dml_1"})
+		c1.Shards[0].Script, c1.Shards[1].Script, c2.Shards[0].Script = []plPack{pkIns(1000)}, []plPack{pkDel(1001)}, []plPack{pkIns(1002)}
+		scs = append(scs, &plScenario{Name: "place:3to2", SrcN: 3, TgtN: 2, Colls: []*plColl{c1, c2}, Drivers: []plDriver{{Kind: "start", Coll: 0}, {Kind: "start", Coll: 1}}, WatchMapping: true, HeavyBound: 2})
+		d1 := mkColl(101, "c1", []string{"src-dml_0", "src-dml_1"}, []string{"tgt-dml_0", "tgt-dml_1"})
+		d2 := mkColl(102, "c2", []string{"src-dml_1"}, []string{"tgt-dml_2"})
+		d1.Shards[0].Script, d1.Shards[1].Script, d2.Shards[0].Script = []plPack{pkIns(1000)}, []plPack{pkDel(1001)}, []plPack{pkIns(1002)}
+		scs = append(scs, &plScenario{Name: "place:2to3", SrcN: 2, TgtN: 3, Colls: []*plColl{d1, d2}, Drivers: []plDriver{{Kind: "start", Coll: 0}, {Kind: "start", Coll: 1}}, WatchMapping: true, HeavyBound: 2})
+	}
+	res.Rule = "sched engine over the real channel manager (startReadChannel / waitChannel / forwardChannel around util.ChannelMapping): placements {renamed, sorted pairing, crosswise (two collections share a source channel but live on different downstream channels), same names, 2:1, 1:2, 3:2, 2:3 channel counts} with the collections started concurrently; all start orders and schedules within the deviation bound; the connectivity check of a new handler is a scheduling point whenever the manager's channel lock is not held there; the assignment table is read through CheckKeyExist for every channel pair at every scheduling point: one image per key at any time, an image never changes or disappears, no channel serves more than ceil(larger/smaller), every subscribed source channel is assigned; plus the C02 routing oracle on what is emitted"
+	plExplore(t, res, "C16", bound, scs, plCheck{props: "2M"}, 150*time.Second)
 }
 
 // ------------------------------------------------------------------------------------------------
